@@ -455,4 +455,103 @@ def XR.isNan : XR → Bool
   | .nan => true
   | _ => false
 
+/-! ### size arguments as the calling Python methods pass them (round 4)
+
+The Cython wrappers receive the array sizes as separate integers and the C routines trust them.
+`Generated/StructC20Py.lean` (translate/c20_py.py) lists, per wrapper, where the calling Python
+method takes each of them from: an axis of an array *that is passed*, an attribute of the object
+(`self.N`), a scalar parameter, or something else.  `resolveSize` gives the value such an argument
+has for given shapes of the passed arrays and a given `self.N`. -/
+abbrev SizeRow := String × String × String × Nat × Nat
+
+def resolveSize (rows : List SizeRow) (cy : String) (shapes : List (List Nat)) (objN : Nat) :
+    Option Nat :=
+  match rows.find? (fun r => r.1 == cy) with
+  | some (_, kind, name, pos, axis) =>
+      if kind == "arr" then (shapes.getD pos [])[axis]?
+      else if kind == "self" && name == "N" then some objN
+      else none
+  | none => none
+
+/-- byte sizes when the float32 array that is passed has shape `(N, T)` while the integers
+`(Np, Tp)` are passed as `N`, `n_samples` (the work arrays are allocated from the integers) -/
+def miSizesHeld (N T Np Tp nb : Nat) : List Nat :=
+  [N * T * 4, Np * Tp * 8, Np * nb * 8, nb * nb * 8, Np * Np * 4]
+
+/-- element `idx` of the row-major `(·, T)` array `d`; outside the array: foreign memory, here
+`none` (the verdict is `oob` by the load itself, whatever the value) -/
+def flatAt (d : Data) (T idx : Nat) : Option Rat := if T = 0 then none else d.at (idx / T) (idx % T)
+
+/-- `MutualInfoClimateNetwork._cython_calculate_mutual_information` on an object with `self.N =
+objN`, for the `(N, T)` float32 array `d` that reaches the kernel: the integers `N`, `n_samples`
+handed to `mutual_information` are taken from where `rows` says (the generated `mi_pysizes`).  A
+source the model cannot evaluate is answered `oob` (not covered — the theorem then fails). -/
+def miObjCall (rows : List SizeRow) (objN N T : Nat) (nb : Int) (zdiv : Bool)
+    (scaling rmin : Option Rat) (d : Data) : Verdict :=
+  match resolveSize rows "N" [[N, T]] objN, resolveSize rows "n_samples" [[N, T]] objN with
+  | some Np, some Tp =>
+      if Np = N ∧ Tp = T then miCall N T nb zdiv scaling rmin d
+      else if nb < 0 ∨ (2 : Int) ^ 31 ≤ nb ∨ N * T = 0 ∨ zdiv = true then .raise
+      else
+        let dat := fun i k => flatAt d T (i * Tp + k)
+        if castsOK 64 Np Tp scaling rmin nb dat then
+          verdictOf (miSizesHeld N T Np Tp nb.toNat)
+            (miTrace Np Tp nb.toNat (fun i k => symbol scaling rmin nb (dat i k)))
+        else .oob
+  | _, _ => .oob
+
+/-- `miWrapperCall` (normalised float64 array down to the kernel) on an object with `self.N = objN` -/
+def miObjWrapperCall (rnd : Rat → Rat) (rows : List SizeRow) (objN N T : Nat) (nb : Int)
+    (sc : Option Rat) (a : Data) : Verdict :=
+  let mn := optMin a.flat
+  let mx := optMax a.flat
+  let zdiv : Bool := match mn, mx with
+    | some x, some y => decide (y - x = 0)
+    | _, _ => false
+  let sc' : Option Rat := match mn, mx with
+    | some _, some _ => sc
+    | _, _ => none
+  miObjCall rows objN N T nb zdiv sc' (mn.map rnd) (a.map fun row => row.map fun x => x.map rnd)
+
+/-! ### the histogram range as an argument (round 4)
+
+`tmiKernelVerdict mn mx` is the part of `tmiCall` after the wrapper has computed `range_min = mn`,
+`range_max = mx` (shapes equal, `n_bins` valid, arrays non-empty). -/
+def tmiKernelVerdict (mn mx : Option Rat) (N T : Nat) (nb : Int) (dO dS : Data) : Verdict :=
+  match mn, mx with
+  | some a, some b =>
+      if b - a = 0 then .raise
+      else
+        let s : Option Rat := some (1 / (b - a))
+        if castsOK 32 N T s mn nb dO.at && castsOK 32 N T s mn nb dS.at then
+          verdictOf (tmiSizes N T N T nb.toNat)
+            (tmiTrace N T nb.toNat (fun i k => symbol s mn nb (dO.at i k))
+                                   (fun i k => symbol s mn nb (dS.at i k)))
+        else .oob
+  | _, _ =>
+      verdictOf (tmiSizes N T N T nb.toNat)
+        (tmiTrace N T nb.toNat (fun _ _ => nb - 1) (fun _ _ => nb - 1))
+
+/-- `np.min((x, y))` / `np.max((x, y))` of two floats: NaN if one of them is -/
+def npMin2 (x y : Option Rat) : Option Rat :=
+  match x, y with
+  | some a, some b => some (if b < a then b else a)
+  | _, _ => none
+def npMax2 (x y : Option Rat) : Option Rat :=
+  match x, y with
+  | some a, some b => some (if a < b then b else a)
+  | _, _ => none
+
+/-- one term of the range as the generated tables name it: (array, "min" | "max") -/
+def rangeTerm (dO dS : Data) (t : String × String) : Option Rat :=
+  let a := if t.1 == "original_data" then dO.flat else dS.flat
+  if t.2 == "min" then optMin a else optMax a
+
+/-- the range the wrapper computes from the listed terms (`np.min((t0, t1))`, `np.max((u0, u1))`) -/
+def rangeFrom (dO dS : Data) (mins maxs : List (String × String)) : Option Rat × Option Rat :=
+  match mins, maxs with
+  | [t0, t1], [u0, u1] => (npMin2 (rangeTerm dO dS t0) (rangeTerm dO dS t1),
+                           npMax2 (rangeTerm dO dS u0) (rangeTerm dO dS u1))
+  | _, _ => (none, none)
+
 end Pyunicorn.Access
